@@ -25,6 +25,7 @@ def run_translators(log):
     """Each translator module in harness/translate exposes run(repo, gendir) -> list of changed files.
     Translators that need the repo's third-party packages run under /venv."""
     changed = []
+    os.makedirs(os.path.join(COQ, 'Gen'), exist_ok=True)   # untracked: absent in a fresh checkout
     tdir = os.path.join(ROOT, 'harness', 'translate')
     for f in sorted(glob.glob(os.path.join(tdir, '*.py'))):
         name = os.path.basename(f)[:-3]
